@@ -174,6 +174,7 @@ def run(ctx, R, tier):
     seek_callers(F, R)
     end_rule(F, R)
     end_after_step(F, R)
+    sib_data(F, R)
     from .c03 import commands_reach_manager
     commands_reach_manager(F, R, rule='B.C09.cmd-applied')
     from .c18 import seek_landing
@@ -345,3 +346,91 @@ def end_after_step(F, R):
             ok = emp[0] in after_pop and not (set(pops) & (before - {emp[0]}))
     R.check(ok, 'B.C09.sib', 'end-after-step', 'in the per-frame loop of StreamingSound::process the end-of-data test does not come after the frames '
             'of this step were popped: the streaming sound stops one output frame later than the static sound', detail='pop loop ≺ reached_end && is_empty', where=b.file)
+
+
+SD_A = 'sound::static_sound::data::StaticSoundData'
+SD_B = 'sound::streaming::data::StreamingSoundData::<Error>'
+
+
+def _sd_norm(d):
+    import re
+    d = d.replace('(*self)', 'self')
+    d = re.sub(r'\(\*+_1\)?\.\^self\)?', 'self', d)
+    d = d.replace('core::slice::<impl [T]>::len(<std::sync::Arc<T, A> as std::ops::Deref>::deref(&self.frames))', 'FILE_LEN').replace('core::slice::<impl [T]>::len(&(*self.frames))', 'FILE_LEN')
+    d = re.sub(r'(?:<[^<>]*as )?sound::streaming::decoder::Decoder>?::num_frames\((?:[^()]|\((?:[^()]|\([^()]*\))*\))*\)', 'FILE_LEN', d)
+    d = re.sub(r'(?:<[^<>]*as )?sound::streaming::decoder::Decoder>?::sample_rate\((?:[^()]|\((?:[^()]|\([^()]*\))*\))*\)', 'RATE', d)
+    d = re.sub(r'self\.sample_rate', 'RATE', d)
+    d = re.sub(r'closure\([^)]*\)', 'closure(..)', d)
+    d = re.sub(r'_\d+', '_', d)
+    return d
+
+
+def _sd_events(F, owner, nm):
+    import re
+    out = []
+    bodies = [F.body(owner + '::' + nm)] + list(F.closures_of(owner + '::' + nm))
+    for b in bodies:
+        if b is None:
+            continue
+        for bb, si, s in b.stmts():
+            if s['k'] != 'assign':
+                continue
+            if s['lhs']['p']:
+                pl = pretty_place(b, s['lhs'])
+                m = re.search(r'\.((settings\.)?[a-z_]+)$', pl)
+                if m and (m.group(1).startswith('settings') or m.group(1) == 'slice'):
+                    out.append(('store', m.group(1), _sd_norm(describe_rv(b, s['rv'], depth=8, at=bb))))
+            elif b.local_name(s['lhs']['l']) and len(b.defs().get(s['lhs']['l'], [])) > 1:
+                out.append(('assign', b.local_name(s['lhs']['l']), _sd_norm(describe_rv(b, s['rv'], depth=8, at=bb))))
+        for bb, t in b.calls():
+            d = t.get('dest')
+            if d and not d['p'] and b.local_name(d['l']) and len(b.defs().get(d['l'], [])) > 1:
+                out.append(('assign', b.local_name(d['l']), _sd_norm('%s(%s)' % (callee_path(t), ', '.join(describe(b, a, depth=6, at=bb) for a in t['args'])))))
+        if '{closure' in b.path:
+            for p in explore(b):
+                if p.end == 'return':
+                    out.append(('closure-ret', _sd_norm(str(p.ret))))
+    return sorted(set(out))
+
+
+def sib_data(F, R, rule='B.C09.sib-data'):
+    """"Given the same audio data and settings": the two kinds of sound data are configured by twin builder methods
+    (`slice`, `loop_region`, `start_position`, `start_time`, `volume`, `playback_rate`, `panning`, `fade_in_tween`) that do the
+    same thing to the same setting - compared as the normalised set of stores / intermediate values / closure results of
+    each pair (the static sound's `frames.len()` and sample rate standing for the decoder's `num_frames()` and
+    `sample_rate()`); and both open a file the same way (`from_file`, `from_cursor` hand the source to `from_media_source`
+    with no adapter in between: an adapter can make the stream unseekable)."""
+    import re
+    from ..paths import describe_rv
+    n = 0
+    for nm in ('slice', 'loop_region', 'start_position', 'start_time', 'volume', 'playback_rate', 'panning', 'fade_in_tween'):
+        if not R.check(F.body(SD_A + '::' + nm) is not None and F.body(SD_B + '::' + nm) is not None, rule, 'anchor:' + nm, 'builder method %s not found on both kinds of sound data' % nm):
+            continue
+        n += 1
+        ea, eb = _sd_events(F, SD_A, nm), _sd_events(F, SD_B, nm)
+        da = [e for e in ea if e not in eb]
+        db = [e for e in eb if e not in ea]
+        R.check(ea == eb and bool(ea), rule, nm, 'StaticSoundData::%s and StreamingSoundData::%s differ: static only %s / streaming only %s' % (nm, nm, [str(e)[:110] for e in da][:2], [str(e)[:110] for e in db][:2]),
+                detail={'events': len(ea)}, where=F.body(SD_B + '::' + nm).file)
+    R.floor(rule, n, 8)
+    for nm in ('from_file', 'from_cursor'):
+        a = F.body('sound::static_sound::data::from_file::<impl sound::static_sound::data::StaticSoundData>::' + nm) or F.body(SD_A + '::' + nm)
+        b = F.body('sound::streaming::data::StreamingSoundData::<sound::error::FromFileError>::' + nm)
+        if a is None or b is None:
+            cand_a = [x for x in F.bodies if x.krate == 'kira' and x.path.endswith('::' + nm) and 'static_sound' in x.path and '{closure' not in x.path]
+            cand_b = [x for x in F.bodies if x.krate == 'kira' and x.path.endswith('::' + nm) and 'streaming::data' in x.path and '{closure' not in x.path]
+            a = a or (cand_a[0] if cand_a else None)
+            b = b or (cand_b[0] if cand_b else None)
+        if not R.check(a is not None and b is not None, rule, 'anchor:' + nm, '%s not found on both kinds of sound data' % nm):
+            continue
+        allowed = ('std::fs::File::open', 'std::boxed::Box::<T>::new', 'std::boxed::Box::<T, A>::new', '::SymphoniaDecoder::new', '::from_decoder',
+                   '::from_media_source', '::from_boxed_media_source', 'std::ops::Try>::branch', 'std::ops::FromResidual', '::from_residual', 'std::convert::From', 'AsRef', '::into', '::from')
+        extra = []
+        for body in (a, b):
+            for _, t in body.calls():
+                cp = callee_path(t) or ''
+                if not any(x in cp for x in allowed):
+                    extra.append(cp)
+        R.check(not extra, rule, nm, '%s wraps / transforms its source on the way to the decoder (%s): the decoder no longer works on the file itself '
+                '(an adapter such as a read-only buffered reader makes the stream unseekable: backward seeks and loops fail)' % (nm, extra[:3]),
+                detail={'static': [(callee_path(t) or '').split('::')[-1] for _, t in a.calls()], 'streaming': [(callee_path(t) or '').split('::')[-1] for _, t in b.calls()]}, where=b.file)
